@@ -235,6 +235,16 @@ def register(chk):
                             continue
                         chk.add("adjust_nondelegable:parent=%s:from=%s:to=%s:omit=%d%d" % (",".join(pattern) or "-", ",".join(fs) or "-", ",".join(ts) or "-", fo, to_),
                                 ob_adjust_nondelegable, l, pattern, fs, ts, True, fo, to_)
+    if chk.tier == "quick":
+        # one slot more for the parents in which a list cursor has to pass two entries before it reaches a free slot (two slots of the parent
+        # already fixed or hidden, one free): the catch-up loops of adjust_nondelegable iterate more than once only there (seed C14i)
+        for pattern in wkd.parent_patterns(3):
+            if sum(s == "free" for s in pattern) != 1:
+                continue
+            for fs in wkd.list_shapes(pattern):
+                for ts in wkd.list_shapes(pattern):
+                    chk.add("adjust_nondelegable:parent=%s:from=%s:to=%s:omit=00" % (",".join(pattern), ",".join(fs), ",".join(ts)),
+                            ob_adjust_nondelegable, 3, pattern, fs, ts, True, False, False)
 
 
 def include_in(chk):
@@ -253,7 +263,7 @@ def main(argv=None):
     chk.explanation = ("adjust_precomputed, adjust_nondelegable, precompute and the precomputed/direct forms of encrypt, sign, verify are executed symbolically "
                        "from the IR over formal discrete logarithms; z3 decides, for all 256-bit attribute values (including values >= r, borrow and "
                        "wrap-around of the word-level id subtraction, which is inside the query), that the adjusted value equals the from-scratch value.")
-    chk.bounds = ["adjust_precomputed: every ordered pair of list shapes over l <= 3 (quick) / 4 (thorough) slots; adjust_nondelegable: every parent pattern x "
+    chk.bounds = ["adjust_precomputed: every ordered pair of list shapes over l <= 3 (quick) / 4 (thorough) slots; adjust_nondelegable (quick: l <= 2, plus the l = 3 parents with exactly one free slot, without the omit-all flags): every parent pattern x "
                   "every ordered pair of documented list shapes over l <= 2 (quick) / 3 (thorough) slots; ids symbolic in [0,2^256)",
                   "chains of adjustments are covered because each adjustment is shown to land exactly on the from-scratch value",
                   "hidden list entries carry id 0 (as the Go bindings produce them)"]
